@@ -296,13 +296,15 @@ class Ctx:
         s.add(cond)
         s.add(*relevant_defs(list(st.pc) + [cond]))
         t0 = time.time()
-        r = s.check()
+        r = hard_check(s, 2000)
         self.solver_time += time.time() - t0
         return r != z3.unsat
 
     # ---------------------------------------------------------------- entry point
     def run(self):
         c = self.contract
+        from . import values as _values
+        _values.TRANSPARENT[0] = bool(c.get("transparent", False))
         st = State()
         facts = []
         args = self.fdef.args
@@ -479,7 +481,7 @@ def sum_extensionality(hyps, a, b):
         s.add(*rng)
         s.add(*gi)
         s.add(z3.Not(goal))
-        r = s.check()
+        r = hard_check(s, 700)
         if r == z3.unsat:
             res = (a == b)
         else:
@@ -512,7 +514,7 @@ def sum_extensionality(hyps, a, b):
                 s.add(*gi)
                 s.add(*defs)
                 s.add(z3.Not(goal))
-                if s.check() == z3.unsat:
+                if hard_check(s, 1500) == z3.unsat:
                     res = (a == b)
     except z3.Z3Exception:
         res = None
@@ -681,7 +683,34 @@ def relevant_defs(terms):
     return out
 
 
+import threading
+
+
+def hard_check(solver, ms):
+    """solver.check() with a hard wall-clock limit: z3's own 'timeout' / 'rlimit' parameters are not honoured inside some
+    nonlinear-arithmetic loops, so a timer thread interrupts the context (Z3_interrupt) when the limit expires."""
+    timer = threading.Timer(max(0.2, ms / 1000.0 * 1.25), solver.ctx.interrupt)
+    timer.daemon = True
+    timer.start()
+    try:
+        r = solver.check()
+    except z3.Z3Exception:
+        r = z3.unknown
+    finally:
+        timer.cancel()
+    return r
+
+
 def _check(hyps, goal, lem, ms, mbqi=True, seed=0, rlimit=0):
+    if os.environ.get("KVC_TRACE3"):
+        t_ = time.time()
+        r_ = _check0(hyps, goal, lem, ms, mbqi, seed, rlimit)
+        print("        _check nh=%d nl=%d ms=%d mbqi=%s seed=%s rl=%s -> %s %.2fs" % (len(hyps), len(lem or []), ms, mbqi, seed, rlimit, r_[0], time.time() - t_), flush=True)
+        return r_
+    return _check0(hyps, goal, lem, ms, mbqi, seed, rlimit)
+
+
+def _check0(hyps, goal, lem, ms, mbqi=True, seed=0, rlimit=0):
     s = z3.Solver()
     s.set("timeout", max(100, int(ms)))
     if rlimit:
@@ -697,7 +726,7 @@ def _check(hyps, goal, lem, ms, mbqi=True, seed=0, rlimit=0):
     defs = relevant_defs(list(hyps) + [goal] + list(lem or []))
     if defs:
         s.add(*defs)
-    if seed and not mbqi:
+    if seed:
         # restart in a fresh z3 context: re-parsing the query renumbers the terms, which (much more than the seed
         # parameter) changes the instantiation order; only the verdict is needed from these attempts
         ctx = z3.Context()
@@ -706,12 +735,13 @@ def _check(hyps, goal, lem, ms, mbqi=True, seed=0, rlimit=0):
         if rlimit:
             s2.set("rlimit", int(rlimit))
         s2.set("smt.random_seed", seed)
-        s2.set("smt.mbqi", False)
+        if not mbqi:
+            s2.set("smt.mbqi", False)
         s2.from_string(s.to_smt2())
-        r = s2.check()
+        r = hard_check(s2, ms)
         r = z3.unsat if r == z3.unsat else (z3.sat if r == z3.sat else z3.unknown)
         return r, s
-    r = s.check()
+    r = hard_check(s, ms)
     return r, s
 
 
@@ -826,7 +856,7 @@ def nlsat_refutes(hyps, goal, ms):
         s.set("timeout", int(ms))
         s.add(*ab[:-1])
         s.add(z3.Not(ab[-1]))
-        return s.check() == z3.unsat
+        return hard_check(s, ms) == z3.unsat
     except z3.Z3Exception:
         return False
 
@@ -913,13 +943,12 @@ def prove1(hyps2, goal2, budget):
         qf = [h for h in hyps2 if not has_quantifier(h)]
         lemq = [l for l in (lem if goal_is_nonlinear(goal2) else lem0) if not has_quantifier(l)]
         lemq0 = [l for l in lem0 if not has_quantifier(l)]
-        r, s = _check(qf, goal2, lemq0, 1500, mbqi=False, rlimit=RL)       # linear lemma instances only: congruence + LRA
-        if r == z3.unsat:
-            return "discharged", time.time() - t0, None, "z3 (quantifier-free hypotheses)"
-        if len(lemq) != len(lemq0):
-            r, s = _check(qf, goal2, lemq, 1500, mbqi=False, rlimit=RL)
-            if r == z3.unsat:
-                return "discharged", time.time() - t0, None, "z3 (quantifier-free hypotheses)"
+        # quantifier-free portfolio: all lemma instances / the linear ones only, a few short restarts each (fresh contexts)
+        for seed in (0, 1, 2):
+            for L in ((lemq, lemq0) if len(lemq) != len(lemq0) else (lemq0,)):
+                r, s = _check(qf, goal2, L, 1200, mbqi=False, seed=seed)
+                if r == z3.unsat:
+                    return "discharged", time.time() - t0, None, "z3 (quantifier-free hypotheses)"
     if qf_goal and goal_is_nonlinear(goal2):
         # phase N: pure polynomial abstraction decided by nlsat
         if nlsat_refutes(qf + lemq, goal2, max(5000, budget * 500)):
@@ -935,12 +964,12 @@ def prove1(hyps2, goal2, budget):
                 s_.set("timeout", 6000)
                 s_.add(*ab[:-1])
                 s_.add(z3.Not(ab[-1]))
-                if s_.check() == z3.unsat:
+                if hard_check(s_, 6000) == z3.unsat:
                     return "discharged", time.time() - t0, None, "z3 (products abstracted to an uninterpreted function)"
         except z3.Z3Exception:
             pass
     for seed in range(K):
-        r, s = _check(hyps2, goal2, lem0, 6000, mbqi=False, seed=seed, rlimit=RL)
+        r, s = _check(hyps2, goal2, lem0, 20000, mbqi=False, seed=seed, rlimit=RL)
         if r == z3.unsat:
             return "discharged", time.time() - t0, None, "z3"
         if seed == 0 and qf_goal:
@@ -948,7 +977,7 @@ def prove1(hyps2, goal2, budget):
             if r == z3.unsat:
                 return "discharged", time.time() - t0, None, "z3 (quantifier-free hypotheses)"
         if seed == 1 and len(lem) != len(lem0):
-            r, s = _check(hyps2, goal2, lem, 6000, mbqi=False, rlimit=RL)
+            r, s = _check(hyps2, goal2, lem, 20000, mbqi=False, rlimit=RL)
             if r == z3.unsat:
                 return "discharged", time.time() - t0, None, "z3"
     for seed in (0, 7, 23, 101):
@@ -1371,7 +1400,9 @@ class Eval:
         lo = self.clamp(base.n, sl.lower, z3.IntVal(0), st)
         hi = self.clamp(base.n, sl.upper, base.n, st)
         if self.spec:
-            return Seq(z3.simplify(hi - lo), z3.simplify(base.off + lo), base.arrs, base.esh, base.kind)
+            f = base.fn
+            return Seq(z3.simplify(hi - lo), z3.simplify(base.off + lo), base.arrs, base.esh, base.kind, None,
+                       (lambda k: f(lo + k)) if f is not None else None)
         return base.slice(lo, hi)
 
     def subscript(self, base, sl, st, node):
